@@ -145,6 +145,11 @@ func (ms *Modules) resolveIdentities() []error {
 
 	var errs []error
 
+	// Start from the loaded texts alone: an identity of a (sub)module that
+	// an earlier run had linked, but that a revision loaded since then no
+	// longer defines, must not survive in the dictionary.
+	ms.typeDict.identities.dict = map[string]resolvedIdentity{}
+
 	// Across all modules, read the identity values that have been extracted
 	// from them, and compile them into a "fully resolved" map that means that
 	// we can look them up based on the 'real' prefix of the module and the
